@@ -23,7 +23,7 @@ from .. import h_A as H
 
 
 def _s(cs, i):
-    return str(H.arg_at(cs, i))
+    return str(H.arg_at(cs, i)) if i < len(cs.args) else "<no-arg>"
 
 
 def _g(f, bb):
